@@ -251,7 +251,7 @@ func c06Anchors() []core.Case {
 }
 
 func c06Cases(seed uint64, tier string) []core.Case {
-	cs := c06Anchors()
+	cs := append(c06Anchors(), c06dAnchors()...)
 	rng := rand.New(rand.NewPCG(seed, 606))
 	nPairs, maxOps, nRand := 60, 2, 300
 	if tier == "thorough" {
@@ -307,7 +307,8 @@ func c06Cases(seed uint64, tier string) []core.Case {
 			cs = append(cs, core.MkCase(kind, rng.Uint64(), batch))
 		}
 	}
-	return cs
+	// second workload: schema and index operations (c06_ddl.go)
+	return append(cs, c06dCases(seed, tier)...)
 }
 
 // ---------------------------------------------------------------------------------------
@@ -1037,6 +1038,10 @@ func (x *c06Run) coverage() {
 }
 
 func c06Run1(ctx context.Context, c core.Case, r *core.Rec) {
+	if strings.HasPrefix(c.Kind, "ddl/") {
+		c06dRun1(ctx, c, r)
+		return
+	}
 	var p c06Params
 	c.P(&p)
 	// badger: one node per case, one collection per schedule. corekv memory store: one node per
@@ -1094,7 +1099,10 @@ func init() {
 		Cases: c06Cases,
 		Run:   c06Run1,
 		Floors: []string{"floor_read_then_write_across_others_commit", "floor_both_write_same_doc", "floor_delete_vs_update", "floor_discard_after_write",
-			"floor_index_maintenance_vs_delete", "conflicts_demanded_and_reported", "nontrivial_schedules", "schedules_memory_store", "txn_index_reads", "programs_with_all_interleavings"},
+			"floor_index_maintenance_vs_delete", "conflicts_demanded_and_reported", "nontrivial_schedules", "schedules_memory_store", "txn_index_reads", "programs_with_all_interleavings",
+			// schema / index DDL workload (c06_ddl.go)
+			"ddl_schedules", "ddl_nontrivial_schedules", "floor_schema_commit_after_foreign_schema_commit", "floor_create_index_uncommitted", "floor_drop_index_uncommitted",
+			"floor_index_ddl_commit_failed", "ddl_post_phase_writes", "observer_index_reads", "ddl_txn_reads", "ddl_programs_with_all_interleavings"},
 		CaseTimeout: 180 * time.Second,
 		Exhaustive:  func(string) bool { return false },
 		Assumptions: []string{
